@@ -204,7 +204,8 @@ REPAIRED = {"F27-offset-without-limit", "F03-double-minus", "F60-module-sibling-
 SAME_DEFECT = {"F62-let-loses-window-order": "F35-let-boundary-hides-order-from-window",
                "F64-let-column-alias-lost": "F36-let-table-star-loses-derived-name",
                "F68-let-sort-key-recomputed": "F39-let-sort-key-expression-reinlined",
-               "F69-sort-alias-not-carried": "F24-dangling-generated-alias"}
+               "F69-sort-alias-not-carried": "F24-dangling-generated-alias",
+               "F72-distinct-includes-carried-sort-key": "F19-take-then-distinct"}
 
 
 def classify_side(rec):
@@ -224,6 +225,11 @@ _AGG_SELECT_ORDERED = re.compile(r"\(SELECT ((?:[^()]|\((?:[^()]|\([^()]*\))*\))
 
 def classify_first(rec):
     """narrow classes that the shared classifier would file under a broader id"""
+    if rec["tag"] == "rows" and rec["verdict"] == "rows":
+        # F72 (regression of 456bdcd; relational.json keeps it inside F19): the take's sort key sits in the SELECT DISTINCT list
+        if re.search(r"\btake\b", rec["prql"]) and re.search(r"\bsort\b", rec["prql"]) and distinct_widened(rec["prql"], rec.get("sql") or ""):
+            return "F72-distinct-includes-carried-sort-key"
+        return None
     if rec["tag"] != "sql-err":
         return None
     prql, sql, txt = rec["prql"], rec.get("sql") or "", fail_text(rec)
@@ -392,8 +398,6 @@ def classify_c06(rec):
             return "F28-append-prune"
         if "UNION ALL" in sql and distinct_pruned(prql, sql):
             return "F66-distinct-pruned-under-append"
-        if re.search(r"\btake\b", prql) and re.search(r"\bsort\b", prql) and distinct_widened(prql, sql):
-            return "F72-distinct-includes-carried-sort-key"
     return None
 
 
